@@ -28,10 +28,112 @@ def inventory(ctx, prog, rule, entries, stop=()):
     return seen, ext, indirect
 
 
+def _from_param(body, local, depth=0):
+    """is `local` a copy / integer cast of the function's first parameter?"""
+    if local == 1:
+        return True
+    if depth > 6:
+        return False
+    defs = []
+    for blk in body.blocks:
+        for st in blk["stmts"]:
+            if st["k"] == "assign" and st["place"]["l"] == local and not st["place"]["p"]:
+                defs.append(st["rv"])
+    if len(defs) != 1 or defs[0]["k"] not in ("use", "cast"):
+        return False
+    op = defs[0]["op"]
+    return op["k"] in ("copy", "move") and not op["place"]["p"] and _from_param(body, op["place"]["l"], depth + 1)
+
+
+def premise_removable_ascii(ctx, prog, rule):
+    """premise of the budget entries of strings::formatted_quoted_string_from: the helpers count *characters* and the
+    caller slices by *bytes*; that is sound only while every removable character is one byte long, i.e. ASCII.  Every
+    path of is_removable_character that may return true must pin its argument to a code point < 0x80."""
+    from .. import client as C
+    paths, info = C.explore_fn(prog, "stun_rs::strings::is_removable_character", "x", [])
+    body = info["body"]
+    ctx.fn(body)
+    n = 0
+    for pa in paths:
+        if pa.ret == 0:
+            continue
+        n += 1
+        pins = []
+        for op, a, b, v in pa.guards():
+            for x, y in ((a, b), (b, a)):
+                if x == "top:c" and isinstance(y, int):
+                    if op == "Eq" and v == 1 and y < 0x80:
+                        pins.append("c == %#x" % y)
+                    if (op == "Lt" and v == 1 and y <= 0x80 and x is a) or (op == "Le" and v == 1 and y < 0x80 and x is a):
+                        pins.append("c < %#x" % (y if op == "Lt" else y + 1))
+                    if (op == "Ge" and v == 0 and y <= 0x80 and x is a) or (op == "Gt" and v == 0 and y < 0x80 and x is a):
+                        pins.append("c < %#x" % (y if op == "Ge" else y + 1))
+        for nme, val in pa.choices:
+            m = re.match(r"switch@.*:bb(\d+)$", str(nme))
+            if m and val != "otherwise" and int(val) < 0x80:
+                d = body.blocks[int(m.group(1))]["term"]["discr"]
+                if d["k"] in ("copy", "move") and not d["place"]["p"] and _from_param(body, d["place"]["l"]):
+                    pins.append("c == %#x" % int(val))
+        for e in pa.calls:
+            if re.search(r"char::methods::<impl char>::is_ascii(_\w+)?$|^char::is_ascii", e[1]) and "top:c" in repr(e[2]):
+                if pa.choice(r"^ret:%s@" % e[1].split("::")[-1]) == 1 or (isinstance(pa.ret, str) and e[4] in pa.ret):
+                    pins.append(e[1].split("::")[-1])
+        r = pa.ret
+        if isinstance(r, str) and r.startswith("sym:cmp:Eq:('t', 'c'):('c', "):
+            k = int(r.split("('c', ")[1].rstrip(")"))
+            if k < 0x80:
+                pins.append("returns c == %#x" % k)
+        ctx.ob(rule, "removable-ascii:%s" % (pins[0] if pins else "unpinned:%s" % str(pa.ret)[:40]), bool(pins),
+               "is_removable_character may return true with %s" % (", ".join(pins) if pins else "no test pinning c below 0x80 (result %s; calls %s)"
+                                                                % (str(pa.ret)[:60], pa.call_names())), info["where"],
+               replay=None if pins else pa.describe())
+    ctx.floor(rule, "accepting paths of is_removable_character", n, 1)
+
+
+def premise_error_code(ctx, prog, rule):
+    from .c19 import r19_3_error_code_invariant
+    r19_3_error_code_invariant(ctx, prog, rule=rule)
+
+
+def premise_distinct_codes(ctx, prog, rule):
+    from .c01 import type_codes
+    codes = type_codes(ctx, prog, rule)
+    vals = [v[0] for v in codes.values()]
+    dups = sorted({c for c in vals if vals.count(c) > 1})
+    ctx.ob(rule, "distinct-codes", not dups and len(codes) >= 10, "%d type codes, duplicates: %s" % (len(codes), dups or "none"))
+
+
+# machine-checked premises of reviewed budget entries: `requires` text in anchors/panic_budget.json -> checker
+PREMISES = {
+    "is_removable_character accepts only code points < 0x80": premise_removable_ascii,
+    "range test in ErrorCode::new and ErrorCode::decode": premise_error_code,
+    "C01 R1.2": premise_distinct_codes,
+}
+
+
+def check_premises(ctx, prog, rule, required):
+    """every budget entry that was used and names a premise gets that premise evaluated in the same check"""
+    prule = rule + "p"
+    ctx.rule(prule, "premises of the reviewed budget entries used by %s are themselves decided (ASCII-only removable characters; "
+                    "ErrorCode range invariant; pairwise distinct attribute codes)" % rule)
+    done = getattr(ctx, "_premises_done", set())
+    for req in sorted(required):
+        if (prule, req) in done:
+            continue
+        done.add((prule, req))
+        fn = PREMISES.get(req)
+        if fn is None:
+            ctx.ob(prule, "premise:%s" % req, False, "budget entry relies on `%s`, for which no checker exists" % req)
+            continue
+        fn(ctx, prog, prule)
+    ctx._premises_done = done
+
+
 def check_sites(ctx, prog, rule, prop, seen, config_label="", exclude_fn=None, only_kinds=None):
     """discharge every site of every reachable body or count it against the reviewed budget.
     returns statistics."""
     budget = load_budget()
+    required = set()
     groups = {}
     n_sites = n_dis = n_bud = 0
     used = set()
@@ -67,6 +169,8 @@ def check_sites(ctx, prog, rule, prop, seen, config_label="", exclude_fn=None, o
         if be is not None:
             used.add((fnp, sk))
         n_bud += min(len(und), allowed)
+        if be is not None and und and allowed and be.get("requires"):
+            required.add(be["requires"])
         ok = len(und) <= allowed
         if ok:
             detail = "%d site(s): %d discharged by the prover, %d within the reviewed budget (max %d%s)" % (
@@ -81,6 +185,8 @@ def check_sites(ctx, prog, rule, prop, seen, config_label="", exclude_fn=None, o
                    % (len(und) - allowed, sk, fnp, allowed, s.line, why), s.where(),
                    replay={"function": fnp, "site": sk, "undischarged": [{"line": x.line, "why": w, "callee": x.callee} for x, w in und],
                            "budget": allowed})
+    if required:
+        check_premises(ctx, prog, rule, required)
     return {"sites": n_sites, "discharged": n_dis, "budgeted": n_bud, "groups": len(groups), "budget_used": len(used)}
 
 
